@@ -77,12 +77,15 @@ MnemOps == IF Small THEN {<<"eq", "KwEQ">>, <<"and", "KwAND">>} ELSE
            {<<"eq", "KwEQ">>, <<"NE", "KwNE">>, <<"lt", "KwLT">>, <<"le", "KwLE">>, <<"gt", "KwGT">>,
             <<"GE", "KwGE">>, <<"and", "KwAND">>, <<"or", "KwOR">>, <<"in", "KwIN">>}
 
-OneArgKw  == IF Small THEN {"%upcase"} ELSE {"%upcase", "%length", "%index", "%bquote", "%superq", "%unquote", "%symexist", "%sysget",
-              "%nrbquote", "%quote", "%qlowcase", "%sysprod"}
-ManyArgKw == Pick({"%cmpres", "%left", "%trim", "%datatyp", "%lowcase", "%qtrim"}, "%cmpres")
+\* (every spelling of a family: plain, Q, K and QK variants are routed one by one in the lexer)
+OneArgKw  == IF Small THEN {"%upcase"} ELSE {"%upcase", "%qupcase", "%kupcase", "%qkupcase", "%length", "%klength", "%index", "%kindex",
+              "%bquote", "%nrbquote", "%quote", "%nrquote", "%superq", "%unquote", "%symexist", "%symglobl", "%symlocal", "%sysget",
+              "%qlowcase", "%qklowcase", "%sysprod", "%sysmacexec", "%sysmacexist"}
+ManyArgKw == Pick({"%cmpres", "%qcmpres", "%kcmpres", "%qkcmpres", "%left", "%qleft", "%kleft", "%qkleft", "%trim", "%qtrim", "%ktrim",
+                   "%qktrim", "%datatyp", "%lowcase", "%klowcase"}, "%cmpres")
 NamedArgKw == Pick({"%compstor", "%validchs", "%verify", "%kverify"}, "%verify")
-ScanKw == Pick({"%scan", "%qscan", "%kscan"}, "%scan")
-SubstrKw == Pick({"%substr", "%qsubstr"}, "%substr")
+ScanKw == Pick({"%scan", "%qscan", "%kscan", "%qkscan"}, "%scan")
+SubstrKw == Pick({"%substr", "%qsubstr", "%ksubstr", "%qksubstr"}, "%substr")
 OptStats == Pick({"%abort", "%symdel", "%input", "%display"}, "%abort")
 SemiStats == Pick({"%return", "%run", "%sysmstoreclear"}, "%return")
 
